@@ -230,7 +230,145 @@ func Spec() *explore.Spec {
 	}
 	spec.Families = append(spec.Families, &explore.Family{Name: "length-ladder", ShardDepth: 2, Body: ladder,
 		Doc: "20 positions of a length-delimited payload (string, bytes, nested, pointer, repeated, map key/value, Message/custom leaf, element counts) x every payload length 0..300 and 16370..16400 (thorough: ..2100 and around 2^21): every length-prefix width boundary at every nesting position"})
+	spec.Families = append(spec.Families, &explore.Family{Name: "after-failed-decode", ShardDepth: 2, Body: afterFailedDecode,
+		Doc: "histories of length 2: a decode that fails (the encoding of a fully populated value truncated at every offset, or with one byte replaced by 0x07 / 0xff at every offset) followed by Unmarshal(Marshal(v)) of sparse values of the same type (maps of messages, of pointers to messages, of strings; repeated messages): pooled scratch state must not leak into the second decode"})
 	return spec
+}
+
+// ---- histories: a failed decode must not influence the next one (pooled scratch structs of map codecs)
+
+type hv struct {
+	A int32
+	B int64
+	C string
+	P *int32
+	L []int32
+}
+
+type hm1 struct{ M map[string]hv }
+type hm2 struct{ M map[int32]*hv }
+type hm3 struct {
+	M map[string]string
+	N map[string]hv
+	R []hv
+}
+type hm4 struct{ M map[string]map0 }
+type map0 struct{ K map[int32]hv }
+
+func i32(v int32) *int32 { return &v }
+
+var (
+	hvFull   = hv{A: 7, B: 8, C: "xyz", P: i32(9), L: []int32{1, 2, 3}}
+	hvSparse = []hv{{}, {A: 1}, {B: 2}, {C: "c"}, {P: i32(5)}, {L: []int32{4}}}
+)
+
+var historyTypes = []struct {
+	name   string
+	dirty  func() any
+	sparse func(hv) any
+	fresh  func() any
+}{
+	{"map[string]message", func() any { return &hm1{M: map[string]hv{"dirty": hvFull}} }, func(x hv) any { return &hm1{M: map[string]hv{"k": x}} }, func() any { return new(hm1) }},
+	{"map[int32]*message", func() any { v := hvFull; return &hm2{M: map[int32]*hv{77: &v}} }, func(x hv) any { return &hm2{M: map[int32]*hv{0: &x}} }, func() any { return new(hm2) }},
+	{"map[string]string + map + repeated", func() any {
+		return &hm3{M: map[string]string{"dk": "dv"}, N: map[string]hv{"dn": hvFull}, R: []hv{hvFull, hvFull}}
+	}, func(x hv) any {
+		return &hm3{M: map[string]string{"": "v", "k": ""}, N: map[string]hv{"": x}, R: []hv{x}}
+	}, func() any { return new(hm3) }},
+	{"map of message holding a map", func() any { return &hm4{M: map[string]map0{"d": {K: map[int32]hv{5: hvFull}}}} }, func(x hv) any { return &hm4{M: map[string]map0{"k": {K: map[int32]hv{0: x}}}} }, func() any { return new(hm4) }},
+}
+
+func afterFailedDecode(c *explore.Ctx) {
+	ht := historyTypes[c.Choose(len(historyTypes))]
+	mode := c.Choose(3) // truncate, replace by 0x07, replace by 0xff
+	dirty, err := proto.Marshal(ht.dirty())
+	if err != nil {
+		c.Fail("history:Marshal-error", "Marshal of the populated %s value fails: %v", ht.name, err)
+		return
+	}
+	var n int64
+	for off := 0; off < len(dirty); off++ {
+		var bad []byte
+		switch mode {
+		case 0:
+			bad = dirty[:off]
+		case 1:
+			bad = append([]byte{}, dirty...)
+			bad[off] = 0x07
+		case 2:
+			bad = append([]byte{}, dirty...)
+			bad[off] = 0xff
+		}
+		for si, x := range hvSparse {
+			// step 1: a decode that (usually) fails half-way
+			explore.Catch(func() { proto.Unmarshal(bad, ht.fresh()) })
+			// step 2: an ordinary round trip of a sparse value of the same type
+			v := ht.sparse(x)
+			var b []byte
+			var merr, uerr error
+			got := ht.fresh()
+			if pv, ps := explore.Catch(func() {
+				b, merr = proto.Marshal(v)
+				if merr == nil {
+					uerr = proto.Unmarshal(b, got)
+				}
+			}); pv != nil {
+				c.Fail("history:panic:"+ps, "round trip after a failed decode panics: %v", pv)
+				continue
+			}
+			n++
+			if merr != nil || uerr != nil {
+				c.Fail("history:error:"+ht.name, "round trip of %s sparse value #%d after a failed decode (mode %d, offset %d) fails: %v %v", ht.name, si, mode, off, merr, uerr)
+				continue
+			}
+			if !reflect.DeepEqual(normalize(reflect.ValueOf(got)).Interface(), normalize(reflect.ValueOf(v)).Interface()) {
+				c.Fail("history:value-differs-after-failed-decode:"+ht.name, "Unmarshal(Marshal(v)) of %s sparse value #%d differs from v after a failed decode of % x (mode %d, offset %d): got %+v", ht.name, si, bad, mode, off, reflect.ValueOf(got).Elem().Interface())
+			}
+		}
+	}
+	c.Inner(n)
+	c.NontrivialStr("history", ht.name, fmt.Sprint(mode))
+	c.Outcome(fmt.Sprintf("mode=%d", mode))
+	c.Case(map[string]any{"type": ht.name, "mode": mode, "dirty_encoding_len": len(dirty), "histories": n})
+}
+
+// normalize returns a deep copy in which empty slices and maps are nil (the wire cannot tell them apart).
+func normalize(v reflect.Value) reflect.Value {
+	switch v.Kind() {
+	case reflect.Ptr:
+		if v.IsNil() {
+			return v
+		}
+		p := reflect.New(v.Type().Elem())
+		p.Elem().Set(normalize(v.Elem()))
+		return p
+	case reflect.Struct:
+		out := reflect.New(v.Type()).Elem()
+		for i := 0; i < v.NumField(); i++ {
+			out.Field(i).Set(normalize(v.Field(i)))
+		}
+		return out
+	case reflect.Slice:
+		if v.Len() == 0 {
+			return reflect.Zero(v.Type())
+		}
+		out := reflect.MakeSlice(v.Type(), v.Len(), v.Len())
+		for i := 0; i < v.Len(); i++ {
+			out.Index(i).Set(normalize(v.Index(i)))
+		}
+		return out
+	case reflect.Map:
+		if v.Len() == 0 {
+			return reflect.Zero(v.Type())
+		}
+		out := reflect.MakeMap(v.Type())
+		it := v.MapRange()
+		for it.Next() {
+			out.SetMapIndex(it.Key(), normalize(it.Value()))
+		}
+		return out
+	}
+	return v
 }
 
 func specBase() *explore.Spec {
